@@ -209,7 +209,7 @@ func (P *Program) VerifyFunction(fn *ssa.Function, cfg *RunCfg, opts VerifyOpts)
 			}
 		}
 	}
-	if len(skip) > 0 {
+	if len(skip) > 0 && len(skip) < maxFailures {
 		var again []*Obligation
 		for _, o := range final {
 			if o.Status == "discharged" && o.Solver != "syntactic" && o.NHyps > first {
